@@ -429,7 +429,15 @@ func (u *Upgrade) releasingUpgrade(c chan<- resultMessage, upgradedRelease *rele
 		slog.Debug("upgrade hooks disabled", "name", upgradedRelease.Name)
 	}
 
-	results, err := u.cfg.KubeClient.Update(current, target, u.Force)
+	var results *kube.Result
+	var err error
+	if twm, ok := u.cfg.KubeClient.(kube.InterfaceThreeWayMerge); ok && u.TakeOwnership {
+		// adopted objects have no "original" other than the target itself: a two-way patch of an
+		// unstructured object is then empty and neither content nor ownership metadata is applied
+		results, err = twm.UpdateThreeWayMerge(current, target, u.Force)
+	} else {
+		results, err = u.cfg.KubeClient.Update(current, target, u.Force)
+	}
 	if err != nil {
 		u.cfg.recordRelease(originalRelease)
 		u.reportToPerformUpgrade(c, upgradedRelease, results.Created, err)
